@@ -26,11 +26,25 @@ MANIFEST = {
             "run (C09P stream: commented-AST skeleton with every comment's role, statement lines, comment pairs); proved: "
             "the commented Pratt glue keeps every comment of its token stream in order, the tree's comment pairs = the "
             "program's comments (C09_parse_keeps_comments), and tree -> emitted text for both drivers, under two decidable "
-            "grammar-shape hypotheses that the stream TESTS on every interpreter tree (not proved of the interpreter) and "
+            "grammar-shape hypotheses that the stream TESTS on every interpreter tree (flags S, V), the first of which "
+            "(forest_shape_ok) is since round C09P2 PROVED of Peg.parse for every text (C09_shape_comment_texts: a comment pair's text is // + no line "
+            "feed; C09_shape_do_statement: a comment-first do_statement has no second pair; C09_shape_inner_pairs: one "
+            "return_statement, last, per do_block, and the inner-pair sequences of "
+            "do_statement / list_item / record_item / statement / return_statement; generic tools "
+            "C09_shape_postconditions_hold_of_every_node, C09_shape_top_level_pairs for every grammar) and "
             "with the explicit exclusion C09-empty-container (refuted witness `[ // c <LF> ]`); F20 (comments consumed by "
             "NEWLINE) is characterised on the regenerated grammar (NEWLINE / inline_comment / plain_newline silent and "
-            "closed; 6-byte witness through the interpreter, re-run on the real parser); PARTIAL: the interpreter-level "
-            "lemma 'quiet rules emit no pairs' is stated (C09_quiet_rules_emit_no_pairs_full), not proved; "
+            "closed; 6-byte witness through the interpreter, re-run on the real parser) and, since round C09P2, as a theorem: "
+            "quiet rules emit no pairs for EVERY grammar (C09_quiet_rules_emit_no_pairs), hence NEWLINE never yields a pair "
+            "on gen/Grammar.v for every text (C09_newline_never_yields_a_pair); wf_ast of everything the parser model "
+            "returns is proved (C09_parser_output_wf_ast), so the end-to-end theorems need stmt_ok without it; gen/Grammar.v "
+            "and gen/PrecTable.v are regenerated before the proof step; the shape hypothesis forest_shape_ok is PROVED of "
+            "every Peg.parse result (C09_shape_items: tree facts C09_shape_comment_texts / C09_shape_inner_pairs / "
+            "C09_shape_do_statement — the last by a FIRST-byte analysis of the interpreter — carried through PegToItems.conv), "
+            "so C09_parse_keeps_comments_text / C09_text_to_text_lib / _cli start from the text with that hypothesis and "
+            "wf_ast discharged; PARTIAL: forest_view_ok (the item view reads every comment pair) as a fact about Peg.parse "
+            "is stated, not proved (C09_view_items_full; tested on every tree, flag V); atoms_ok of "
+            "the parser's output is not derived (comment_ok forbids a bare CR inside a comment, which the grammar admits); "
             "both findings stay open; blots-wasm is not built natively, its loop is mirrored in harness/src/s_c0809.rs; "
             "no axioms",
     "design_ref": "DESIGN.md section 6 C09; notes/C09.md",
@@ -132,6 +146,7 @@ def main(argv):
         return res.finish()
     if replay_path:
         return replay(h, cli, replay_path)
+    PH.regen_tables(h, res)      # C09_shape_* / C09_newline_* are over gen/Grammar.v: regenerate before the proofs
     c.proof_step(res, PID)
     clir = L.CliRunner(cli)
     try:
